@@ -8,6 +8,7 @@ import (
 
 	"github.com/pion/interceptor"
 	"github.com/pion/interceptor/internal/rtpbuffer"
+	"github.com/pion/interceptor/internal/verifhook"
 	"github.com/pion/logging"
 	"github.com/pion/rtcp"
 	"github.com/pion/rtp"
@@ -173,6 +174,8 @@ func (n *ResponderInterceptor) Close() error {
 }
 
 func (n *ResponderInterceptor) resendPackets(nack *rtcp.TransportLayerNack) {
+	defer verifhook.Gate("nack.responder.done", nack)
+	verifhook.Gate("nack.responder.start", nack)
 	n.streamsMu.Lock()
 	stream, ok := n.streams[nack.MediaSSRC]
 	n.streamsMu.Unlock()
@@ -182,6 +185,7 @@ func (n *ResponderInterceptor) resendPackets(nack *rtcp.TransportLayerNack) {
 
 	for i := range nack.Nacks {
 		nack.Nacks[i].Range(func(seq uint16) bool {
+			verifhook.Gate("nack.responder.get", nack)
 			// save the packet under the buffer lock
 			stream.rtpBufferMutex.Lock()
 			p := stream.rtpBuffer.Get(seq)
